@@ -485,7 +485,7 @@ def r8_field_escaping(ctx, rid: str = "C01.R8") -> None:
     c = prog.cls(TQ)
     n = 0
     for name, f in sorted(c.methods.items()):
-        for call in (x for x in walk_no_nested(f.node) if isinstance(x, ast.Call) and isinstance(x.func, ast.Attribute) and x.func.attr == "format"):
+        for call in (x for x in walk_no_nested(f.node) if isinstance(x, ast.Call) and isinstance(x.func, ast.Attribute) and x.func.attr in ("format", "_format_template")):
             for kw in call.keywords:
                 if kw.arg in ("field", "field1", "field2", "fieldref"):
                     n += 1
@@ -518,7 +518,7 @@ def r8_field_escaping(ctx, rid: str = "C01.R8") -> None:
 
 
 def _escaped(prog, f: FuncInfo, v: ast.AST, depth: int = 0) -> bool:
-    if isinstance(v, ast.Call) and call_name(v) in ("self.escape_and_quote_field",):
+    if isinstance(v, ast.Call) and call_name(v) in ("self.escape_and_quote_field", "self.escape_and_quote_fieldref"):
         return True
     if isinstance(v, ast.Call) and call_name(v).startswith("self.convert_") and "field" in call_name(v):
         return True
